@@ -167,6 +167,8 @@ def seqQuery (cfg : Cfg) (name : String) (s : Seq) (args : List String) : String
   | "scd", [] => s!"scdlag {p.length}" ++ String.join ((lagVec p).map (fun i => s!" {i}"))
   | "seq", [] => "str " ++ s.toString
   | "len", [] => s!"int {s.length}"
+  -- str(obj) / repr without the address: "SequenceParameter [len=N], [seq='...']" (spaces are sent as '_')
+  | "strof", [] => "str SequenceParameter_[len=" ++ toString s.length ++ "],_[seq='" ++ s.toString ++ "']"
   | "sty", [] => outNats (allSTY s)
   -- C10
   | "linNCPR", [w] => outExcept (fun v => outMat [posRow s, v]) (linNCPR T w.toNat! s)
